@@ -149,7 +149,8 @@ class Model:
                         tuple(sorted(t.last_wins().items(), key=lambda kv: kv[0]))))
         return (('ok', tuple(out)),)
 
-    def x_undoLog(self, first, last):
+    def x_undoLog(self, first, last, pred=None):
+        """(pred: the filter argument - first and last index the transactions that pass it, IStorageUndoable)"""
         if last < 0:
             last = first - last
         res = []
@@ -160,6 +161,8 @@ class Model:
             if t.status == 'p':
                 break
             if t.status != ' ':
+                continue
+            if pred is not None and not pred(t.tid):
                 continue
             if i >= first:
                 res.append((t.tid, t.user, t.desc))
@@ -247,8 +250,16 @@ def q_iterator(st, start=None, stop=None, ext_normal=None):
     return ('ok', tuple(out))
 
 
-def q_undoLog(st, first, last):
-    r = st.undoLog(first, last)
+def tid_filter(tid):
+    """an arbitrary property of a transaction for undoLog's filter argument"""
+    return sum(tid) % 2 == 0
+
+
+def q_undoLog(st, first, last, filtered=False):
+    if filtered:
+        r = st.undoLog(first, last, lambda d: tid_filter(base64.decodebytes(d['id'] + b'\n')))
+    else:
+        r = st.undoLog(first, last)
     return ('ok', tuple((base64.decodebytes(d['id'] + b'\n'), d['user_name'], d['description'])
                         for d in r))
 
@@ -367,6 +378,8 @@ class Battery:
         if 'undoLog' in self.caps:
             for first, last in ((0, -20), (0, -1), (1, -2), (0, 3), (2, 5), (0, -1000)):
                 check('undoLog', q_undoLog(st, first, last), model.x_undoLog(first, last), first, last)
+            for first, last in ((0, -20), (0, 1), (1, 3), (0, -2)):
+                check('undoLog-filtered', q_undoLog(st, first, last, True), model.x_undoLog(first, last, tid_filter), first, last)
         if 'record_iternext' in self.caps:
             got = q_record_iternext(st)
             exp = []
